@@ -8,6 +8,21 @@ import (
 )
 
 func vpAux() string {
+	if vpTier() == 1 {
+		// auxiliary data larger than the reader's buffer (4096) and than one copy chunk (32 KiB)
+		if k := vpChoose("aux-size", 3); k > 0 {
+			b := make([]byte, []int{0, 5000, 40000}[k])
+			for i := range b {
+				b[i] = 'x'
+				if i%64 == 63 {
+					b[i] = '\n'
+				}
+			}
+			e := vpStr("aux-ends", 2)
+			b[0], b[len(b)-1] = e[0], e[1]
+			return string(b)
+		}
+	}
 	n := vpInt("auxlen", 0, 4+2*vpTier())
 	return vpStr("aux", n)
 }
